@@ -40,6 +40,8 @@ pub struct PtCfg {
     /// behind a Vfs: the backend is mounted AFTER the client's INIT (Vfs::mount then initialises it from the options
     /// the Vfs stored at INIT time)
     pub late_mount: bool,
+    /// Config::enable_mntid (inode identity includes the mount id)
+    pub mntid: bool,
 }
 
 impl PtCfg {
@@ -59,11 +61,12 @@ impl PtCfg {
             dax: false,
             layer_cfg_off: false,
             late_mount: false,
+            mntid: false,
         }
     }
     pub fn label(&self) -> String {
         format!(
-            "{}{}{}{}{}cache{}{}{}{}{}{}{}{}{}",
+            "{}{}{}{}{}cache{}{}{}{}{}{}{}{}{}{}",
             if self.no_open { "noopen," } else { "" },
             if self.no_opendir { "noopendir," } else { "" },
             if self.inode_file_handles { "filehandles," } else { "" },
@@ -78,6 +81,7 @@ impl PtCfg {
             if self.dax { ",dax" } else { "" },
             if self.layer_cfg_off { ",switches-in-vfs-only" } else { "" },
             if self.late_mount { ",mounted-after-init" } else { "" },
+            if self.mntid { ",mntid" } else { "" },
         )
     }
     /// A list in which every pair of switch values occurs (quick tier).
@@ -85,11 +89,11 @@ impl PtCfg {
         let b = PtCfg::base();
         vec![
             b.clone(),
-            PtCfg { no_open: true, no_opendir: true, cache: 1, inode_file_handles: true, ..b.clone() },
-            PtCfg { use_host_ino: true, writeback: true, xattr: false, ..b.clone() },
+            PtCfg { no_open: true, no_opendir: true, cache: 1, inode_file_handles: true, mntid: true, ..b.clone() },
+            PtCfg { use_host_ino: true, writeback: true, xattr: false, mntid: true, ..b.clone() },
             PtCfg { ext4: true, inode_file_handles: true, use_host_ino: true, cache: 2, ..b.clone() },
             PtCfg { behind_vfs: true, no_opendir: true, writeback: true, cache: 1, ..b.clone() },
-            PtCfg { behind_vfs: true, ext4: true, no_open: true, cache: 1, xattr: false, ..b.clone() },
+            PtCfg { behind_vfs: true, ext4: true, no_open: true, cache: 1, xattr: false, mntid: true, ..b.clone() },
             PtCfg { no_open: true, cache: 1, use_host_ino: true, inode_file_handles: true, behind_vfs: true, ..b.clone() },
             PtCfg { ext4: true, no_opendir: true, writeback: true, inode_file_handles: true, ..b.clone() },
         ]
@@ -111,6 +115,7 @@ impl PtCfg {
                     dax: false,
                     layer_cfg_off: false,
                     late_mount: false,
+                    mntid: bits & 4 != 0 && bits & 16 != 0,
                     cache,
                     seal_size: false,
                 };
@@ -366,6 +371,7 @@ impl PtWorld {
             seal_size: cfg.seal_size,
             killpriv_v2: cfg.killpriv_v2 && !(cfg.behind_vfs && cfg.layer_cfg_off),
             dax_file_size: if cfg.dax { Some(8) } else { None },
+            enable_mntid: cfg.mntid,
             ..Config::default()
         };
         let fs = PassthroughFs::<()>::new(pcfg).expect("PassthroughFs::new");
